@@ -1291,6 +1291,44 @@ fn c08(ctx: &Ctx, col: &mut Collector, extra: &mut serde_json::Value) {
         }
     });
     col.merge(c);
+    // one definition for both kinds of carrier: the same eight characters give the same text in a
+    // type 1-4 squitter (DF17, DF18) and in a BDS 2,0 reply (DF20, DF21) - blanks inside, in front
+    // and behind, and unassigned codes included
+    let n = ctx.q(3_000u64, 300_000);
+    let c = par_units(ctx, "c08-agree", 32, |_, r, col, _| {
+        let quoted = |dbg: &str, key: &str| -> Option<String> {
+            let i = dbg.find(key)? + key.len();
+            let j = dbg[i..].find('"')? + i;
+            Some(dbg[i..j].to_string())
+        };
+        for _ in 0..n / 32 {
+            let mut chars = [0u8; 8];
+            for c in chars.iter_mut() {
+                *c = match r.below(4) {
+                    0 => 32,
+                    1 => r.below(64) as u8,
+                    _ => encode::char_code(*r.pick(&['A', 'Z', 'K', 'M', '1', '0', '9'])),
+                };
+            }
+            let mut texts: Vec<(u64, String)> = vec![];
+            for carrier in 0..4u64 {
+                let m = ident_frame(r, &chars, carrier);
+                let (_e, o) = obs::judge(&ctx.g, col, &m);
+                if let Res::Ok(ok) = &o.res {
+                    if let Some(t) = if carrier < 2 { quoted(&ok.debug, "cn: \"") } else { quoted(&ok.debug, "AircraftIdentification(\"") } {
+                        texts.push((carrier, t));
+                    }
+                }
+            }
+            col.count("identifications_compared_across_carriers", texts.len() as u64);
+            if let Some((_, first)) = texts.first() {
+                if let Some((c2, other)) = texts.iter().find(|(_, t)| t != first) {
+                    col.add(fnd("C08", "carriers_disagree", "squitter/bds20", format!("the characters {:?} read {first:?} in a DF17 identification squitter and {other:?} in carrier {c2} (0/1 = DF17/18 squitter, 2/3 = DF20/21 BDS 2,0)", vref::altitude::ident_raw(&chars)), json!({"chars": chars.to_vec()})));
+                }
+            }
+        }
+    });
+    col.merge(c);
     // runs of one character (leading / trailing / all eight): all spaces, all '#', ...
     let c = par_units(ctx, "c08-runs", 64, |i, r, col, _| {
         for carrier in 0..4u64 {
